@@ -15,11 +15,11 @@ NVals == {-30, -10, 0, 10, 29, 30, 50}   \* -15 -5 0 5 14.5 15 25: rounding to t
 NLens == 0..2
 
 (* ---- index selections (Python tuples; All = None) ---- *)
-QIX == {All, <<0>>, <<1>>, <<-1>>, <<2>>, <<-3>>, <<3>>, <<-4>>,
+QIX == {All, << >>, <<0>>, <<1>>, <<-1>>, <<2>>, <<-3>>, <<3>>, <<-4>>,
         <<0, 1>>, <<0, -1>>, <<2, 0>>, <<1, 5>>, <<0, 1, 2>>}
 TIX == QIX \cup {<<-2>>, <<4>>, <<-5>>, <<1, 2>>, <<-1, -2>>, <<0, 4>>, <<1, 3>>, <<0, 2, 3>>,
                  <<1, -1, 5>>, <<3, 1, 0>>, <<0, -4>>}
-FewIX == {All, <<0>>, <<0, -1>>}
+FewIX == {All, << >>, <<0>>, <<0, -1>>}
 
 (* ---- interval sets (units 1/2) ---- *)
 IvOne   == << <<0, 2>> >>                        \* [0, 1]
